@@ -129,6 +129,7 @@ func LiveMPD(a *asset, mpdName string, cfg *ResponseConfig, drmCfg *drm.DrmConfi
 
 	adaptationSets := orderAdaptationSetsByContentType(period.AdaptationSets)
 	var refSegEntries segEntries
+	var refRepID string
 	for asIdx, as := range adaptationSets {
 		if as.SegmentTemplate != nil {
 			as.SegmentTemplate.EndNumber = nil // Never output endNumber
@@ -247,7 +248,8 @@ func LiveMPD(a *asset, mpdName string, cfg *ResponseConfig, drmCfg *drm.DrmConfi
 		var se segEntries
 		if asIdx == 0 {
 			// Assume that first representation is as good as any, so can be reference
-			refSegEntries = a.generateTimelineEntries(as.Representations[0].Id, wTimes, atoMS)
+			refRepID = as.Representations[0].Id
+			refSegEntries = a.generateTimelineEntries(refRepID, wTimes, atoMS)
 			se = refSegEntries
 		} else {
 			switch as.ContentType {
@@ -339,6 +341,29 @@ func LiveMPD(a *asset, mpdName string, cfg *ResponseConfig, drmCfg *drm.DrmConfi
 		lastStartS, err2 := lastStart.ConvertToSeconds()
 		if err1 == nil && err2 == nil && lastStartS > ptS {
 			mpd.PublishTime = lastStart
+		}
+	}
+
+	// A period is removed when the time-shift window has reached the start of the next one.
+	// That is a change of the MPD as well, so publishTime is not earlier than the latest removal.
+	periodDurMS := 3600 / *cfg.PeriodsPerHour * 1000
+	astMS := cfg.StartTimeS * 1000
+	if firstPeriodNr := (wTimes.startTimeMS - astMS) / periodDurMS; firstPeriodNr > 0 {
+		firstPeriodStartMS := astMS + firstPeriodNr*periodDurMS
+		removedMS := wTimes.nowMS - (wTimes.startTimeMS - firstPeriodStartMS)
+		prevStartMS, hasPrev := prevEntryStartMS(cfg, a, refRepID, refSegEntries)
+		if cfg.liveMPDType() != segmentNumber && hasPrev && prevStartMS < int64(firstPeriodStartMS) {
+			// The segment that the first entry of the unsplit timeline replaced belongs to a removed period. When it
+			// left the time-shift window it was not listed any more, so that was no change of this MPD.
+			ptMS := int64(math.Round(calcPublishTime(cfg, refSegEntries.lsi) * 1000))
+			if lastStartS, err := lastStart.ConvertToSeconds(); err == nil {
+				ptMS = max(ptMS, int64(math.Round(lastStartS*1000)))
+			}
+			mpd.PublishTime = m.ConvertToDateTimeMS(ptMS)
+		}
+		ptS, err := mpd.PublishTime.ConvertToSeconds()
+		if err == nil && float64(removedMS)/1000 > ptS {
+			mpd.PublishTime = m.ConvertToDateTimeMS(int64(removedMS))
 		}
 	}
 
@@ -738,6 +763,22 @@ func calcPublishTimeMS(cfg *ResponseConfig, se segEntries, nowMS int, tsbd m.Dur
 		publishMS = firstChangeMS
 	}
 	return publishMS
+}
+
+// prevEntryStartMS returns the start, in wall-clock milliseconds, of the segment just before the first timeline entry.
+// There is none if nothing is listed or the first entry is the first segment of the stream.
+func prevEntryStartMS(cfg *ResponseConfig, a *asset, repID string, se segEntries) (int64, bool) {
+	rep := a.Reps[repID]
+	if rep == nil || len(rep.Segments) == 0 || len(se.entries) == 0 || se.entries[0].T == nil ||
+		se.mediaTimescale == 0 || se.startNr <= 0 {
+		return 0, false
+	}
+	prevDur := uint64(rep.Segments[(se.startNr-1)%len(rep.Segments)].dur())
+	firstStart := *se.entries[0].T
+	if firstStart < prevDur {
+		return 0, false
+	}
+	return int64((firstStart-prevDur)*1000/uint64(se.mediaTimescale)) + int64(cfg.StartTimeS)*1000, true
 }
 
 // calcPublishTime calculates the last time the last segment of the manifest changed in seconds.
